@@ -436,6 +436,7 @@ func superviseShard(ck *Check, job Job, tier string, shard, nshards int, deadlin
 		var hung int32
 		go func() {
 			last, lastSub, lastChange := int64(-2), int64(-1), time.Now()
+			firstChange, cpuAtChange, samples, runnable := lastChange, 0.0, 0, 0
 			tk := time.NewTicker(500 * time.Millisecond)
 			defer tk.Stop()
 			for {
@@ -446,10 +447,28 @@ func superviseShard(ck *Check, job Job, tier string, shard, nshards int, deadlin
 					cur, sub := atomic.LoadInt64(prog), atomic.LoadInt64(&progArr[1])
 					if cur != last || cur < 0 || sub != lastSub {
 						last, lastSub, lastChange = cur, sub, time.Now()
-					} else if time.Since(lastChange) > 60*time.Second {
-						atomic.StoreInt32(&hung, 1)
-						cmd.Process.Kill()
-						return
+						firstChange, cpuAtChange, samples, runnable = lastChange, procCPUSeconds(cmd.Process.Pid), 0, 0
+					} else {
+						samples++
+						if procRunnable(cmd.Process.Pid) {
+							runnable++
+						}
+						if time.Since(lastChange) > 60*time.Second {
+							// no progress for 60 s of wall time. A worker that was runnable most of the time
+							// but got little CPU is being starved by other load, not hanging: give it more
+							// wall time (up to 10 minutes in all). A worker that burnt the CPU time, or that
+							// sat blocked, is reported.
+							cpu := procCPUSeconds(cmd.Process.Pid) - cpuAtChange
+							starved := cpu >= 0 && cpu < 30 && runnable*2 > samples
+							if starved && time.Since(firstChange) < 10*time.Minute {
+								lastChange, samples, runnable = time.Now(), 0, 0
+								cpuAtChange = procCPUSeconds(cmd.Process.Pid)
+								continue
+							}
+							atomic.StoreInt32(&hung, 1)
+							cmd.Process.Kill()
+							return
+						}
 					}
 				}
 			}
@@ -491,7 +510,7 @@ func superviseShard(ck *Check, job Job, tier string, shard, nshards int, deadlin
 		}
 		kind := "process crash"
 		if atomic.LoadInt32(&hung) == 1 {
-			kind = "no return within 60 s"
+			kind = "no return within 60 s (not starved: the worker either used the CPU time or sat blocked)"
 		}
 		describeMu.Lock() // the job object is shared by the supervisor goroutines
 		cs := job.Describe(cur)
@@ -527,6 +546,44 @@ func superviseShard(ck *Check, job Job, tier string, shard, nshards int, deadlin
 			return
 		}
 	}
+}
+
+// procCPUSeconds returns the CPU time (user+system, all threads) a process has used, or -1.
+func procCPUSeconds(pid int) float64 {
+	b, err := os.ReadFile(fmt.Sprintf("/proc/%d/stat", pid))
+	if err != nil {
+		return -1
+	}
+	// fields after the parenthesised command name: state is field 3, utime 14, stime 15
+	t := string(b)
+	if i := strings.LastIndexByte(t, ')'); i >= 0 {
+		f := strings.Fields(t[i+1:])
+		if len(f) > 13 {
+			u, _ := strconv.ParseFloat(f[11], 64)
+			sy, _ := strconv.ParseFloat(f[12], 64)
+			return (u + sy) / 100 // USER_HZ is 100 on Linux
+		}
+	}
+	return -1
+}
+
+// procRunnable reports whether some thread of the process is running or runnable right now.
+func procRunnable(pid int) bool {
+	ents, err := os.ReadDir(fmt.Sprintf("/proc/%d/task", pid))
+	if err != nil {
+		return false
+	}
+	for _, e := range ents {
+		b, err := os.ReadFile(fmt.Sprintf("/proc/%d/task/%s/stat", pid, e.Name()))
+		if err != nil {
+			continue
+		}
+		t := string(b)
+		if i := strings.LastIndexByte(t, ')'); i >= 0 && i+2 < len(t) && t[i+2] == 'R' {
+			return true
+		}
+	}
+	return false
 }
 
 func sigOf(cs map[string]interface{}) string {
